@@ -664,7 +664,7 @@ func main() {
 	env, rep := vh.Parse("C20")
 	rng := vh.NewRng(env.Seed)
 	rep.Rule = "a case is one ordered pair (a,b) inside a pool of 4-8 related values (same type / mixed types / mutants of one tree: " +
-		"reordered or replaced map keys, changed leaves, nil vs empty payloads, NaNs / a value and its decoding / one value of every type built from the same content (all ordered type pairs) / payloads that are windows of one shared backing array with their independent copies / containers built through mutation histories next to plainly built twins / containers of 1..1000 minimal-size elements (null, empty text / blob / array, decimal 0) alone, nested and as the last field, decoded from an exact-size buffer / every construction route (zero values of the structs, payload fields assigned to nil / short / long slices) / containers of 32767 … 70000 entries against their decoding / chains of one-entry lists, maps and int maps (and their alternations) nested 1 … 1000 levels deep around equal and different leaves, with the clause that the same chain around both operands changes neither Equals nor the sign of CompareTo evaluated on the implementation / chains of neighbouring representable numbers and offsets around 1e-6 for every numeric type, bare and inside arrays, lists and maps); laws are evaluated on all pairs and triples of a pool; " +
+		"reordered or replaced map keys, changed leaves, nil vs empty payloads, NaNs / a value and its decoding / one value of every type built from the same content (all ordered type pairs) / payloads that are windows of one shared backing array with their independent copies / containers built through mutation histories next to plainly built twins / containers of 1..1000 minimal-size elements (null, empty text / blob / array, decimal 0) alone, nested and as the last field, decoded from an exact-size buffer / every construction route (zero values of the structs, payload fields assigned to nil / short / long slices) / containers of 32767 … 70000 entries against their decoding / chains of one-entry lists, maps and int maps (and their alternations) nested 1 … 1000 levels deep around equal and different leaves, with the clause that the same chain around both operands changes neither Equals nor the sign of CompareTo evaluated on the implementation / chains of neighbouring representable numbers and offsets around 1e-6 for every numeric type, bare and inside arrays, lists and maps / texts that are not well-formed UTF-8 (stray continuation bytes, impossible bytes, truncated, overlong, surrogates, beyond U+10FFFF) and texts a normaliser would identify (NFC / NFD, case, width, trailing blank / NUL, BOM), by class next to U+FFFD and well-formed neighbours, bare, in text arrays, lists, maps and int maps, plus all cross-class pairs with the scalar clauses evaluated on the implementation); laws are evaluated on all pairs and triples of a pool; " +
 		"non-trivial = a and b are not both null; distinct by the two one-line forms"
 
 	var pools []pool
@@ -775,6 +775,7 @@ func main() {
 		pools = append(pools, minimalPools()...)
 		pools = append(pools, routePools()...)
 		pools = append(pools, deepPools(env.Thorough)...)
+		pools = append(pools, textPools(env.Thorough)...)
 	}
 
 	// ---- model
@@ -1052,6 +1053,14 @@ func main() {
 					if impl[i][j].eq {
 						lawFail("eq-types", []int{i, j}, false, "values of different types are Equal")
 					}
+				} else if (a.K == "l" || a.K == "m" || a.K == "im") && (impl[i][j].cmp == 0) != impl[i][j].eq && differs[i][j] {
+					// the scalar clause reached through containers: descend to the corresponding scalars
+					if x, y, found := nestedZeroIffEq(a, b); found {
+						lawDiffers = true
+						failOnce("property", typeOf(x)+".CompareTo:cmp-zero-iff-eq-inside-containers",
+							fmt.Sprintf("scalars %s and %s: CompareTo is zero but Equals false (or the reverse); reached as corresponding elements of two %s values with CompareTo sign %d, Equals %v", vh.Clip(x.LineX(), 200), vh.Clip(y.LineX(), 200), typeOf(a), impl[i][j].cmp, impl[i][j].eq),
+							[]*vg.V{a, b}, nil)
+					}
 				} else if scalarKind(a.K) {
 					if pe, def := payloadEq(a, b); def && pe != impl[i][j].eq {
 						lawFail("eq-exact", []int{i, j}, false, fmt.Sprintf("scalars: Equals is %v although the payloads are %s", impl[i][j].eq, map[bool]string{true: "equal", false: "different"}[pe]))
@@ -1117,6 +1126,7 @@ func main() {
 		zeroStructProbe(rep)
 		largeStage(rep, env.Thorough)
 		depthStage(rep)
+		textStage(rep)
 		helperStage(rep, env, rng.Fork())
 	}
 
